@@ -14,6 +14,7 @@ import traceback
 from . import REPO, VERIF, extract
 
 EXIT_HELD, EXIT_VIOLATION, EXIT_UNDECIDED, EXIT_CRASH = 0, 1, 2, 3
+OUT = os.environ.get("VF_OUT", VERIF)      # evidence/ and replays/ go here (seed experiments redirect it)
 
 
 def clause_props(c):
@@ -261,7 +262,7 @@ def report(prop, tier, seed, units, canaries, bounded, berr, pm, t_start, verbos
     for f in known:
         if f["id"] in known_hit or f.get("always_report"):
             print("KNOWN-FINDING: property=%s %s" % (prop, f["what"]))
-    replay_dir = os.path.join(VERIF, "replays")
+    replay_dir = os.path.join(OUT, "replays")
     os.makedirs(replay_dir, exist_ok=True)
     n_viol = 0
     for r in violations:
@@ -439,8 +440,8 @@ def write_evidence(prop, tier, seed, units, recs, canaries, bounded, known, know
         cov["obligations"] = n_ob - n_known
     ev = {"property_id": prop, "tier": tier, "seed": seed, "level": level, "coverage": cov,
           "assumptions": assumptions, "wall_s": round(wall, 2), "violations": n_viol}
-    os.makedirs(os.path.join(VERIF, "evidence"), exist_ok=True)
-    json.dump(ev, open(os.path.join(VERIF, "evidence", prop + ".json"), "w"), indent=1, default=str)
+    os.makedirs(os.path.join(OUT, "evidence"), exist_ok=True)
+    json.dump(ev, open(os.path.join(OUT, "evidence", prop + ".json"), "w"), indent=1, default=str)
 
 
 if __name__ == "__main__":
